@@ -205,9 +205,10 @@ def lean_audit(prop: str) -> dict:
         res["problems"].append("audit file failed to elaborate: " + out[-1500:])
     # messages look like: "'Y0.foo' depends on axioms: [propext, Quot.sound]" or "... does not depend on any axioms"
     flat = re.sub(r"\s+", " ", out)
-    for m in re.finditer(r"'([^']+)' depends on axioms: \[([^\]]*)\]", flat):
+    # a theorem name may itself contain primes (foo', foo''): anchor on the closing quote that precedes the fixed text
+    for m in re.finditer(r"'([^\s']\S*)' depends on axioms: \[([^\]]*)\]", flat):
         res["theorems"][m.group(1)] = [a.strip() for a in m.group(2).split(",") if a.strip()]
-    for m in re.finditer(r"'([^']+)' does not depend on any axioms", flat):
+    for m in re.finditer(r"'([^\s']\S*)' does not depend on any axioms", flat):
         res["theorems"][m.group(1)] = []
     for t in wanted:
         if t not in res["theorems"] and not any(k.endswith("." + t) or k == t for k in res["theorems"]):
